@@ -19,6 +19,10 @@ def run(ctx, replay):
             ctx.overlay_tags.add("x12ol")
             x12ol.run(ctx, replay)
             return
+        if drv == "forward-replay":        # a recorded violation of the Forward tier: that tier's own replay entry
+            ctx.overlay_tags.add("x11fw")
+            x11fw.replay_file(ctx, replay, ("c12",))
+            return
         if c12_topo.replay_topo(ctx, replay):
             return
         c12_core.replay_core(ctx, replay)
